@@ -545,8 +545,8 @@ def main(tier, seed, replay, jobs, scale):
         import json
         cases = [tuple(json.load(open(replay))["replay"]["case"])]
     else:
-        nd = int((25 if tier == "quick" else 60) * scale)
-        ns = int((16 if tier == "quick" else 80) * scale)
+        nd = int((40 if tier == "quick" else 80) * scale)
+        ns = int((24 if tier == "quick" else 80) * scale)
         nt = int((3 if tier == "quick" else 10) * scale)
         cases = [("san", seed, i, tier) for i in range(ns)] + [("diff", seed, i, tier) for i in range(nd)] + [("term", seed, i, tier) for i in range(nt)]
     results = list(par.run_cases(dispatch, cases, jobs))
